@@ -116,7 +116,17 @@ CO_Tree::CO_Tree(Iterator i, const dimension_type n) {
       if (top_n == 1) {
         PPL_ASSERT(root.index() == unused_index);
         root.index() = i.index();
-        new(&(*root)) data_type(*i);
+        try {
+          new(&(*root)) data_type(*i);
+        }
+        catch (...) {
+          // The element has not been constructed. As the constructor is
+          // exited by an exception, the destructor will not be run:
+          // release the elements built so far, indexes[] and data[].
+          root.index() = unused_index;
+          destroy();
+          throw;
+        }
         ++i;
         --stack_first_empty;
       }
